@@ -78,7 +78,7 @@ sdl = Contract(
         ("C45-npartitions-met-exactly-when-enough-distinct-values", "implies(npartitions is not None and len(set(seq)) >= npartitions, len(result[1]) - 1 == npartitions)"),
     ],
     raises=[("ValueError", "(npartitions is None) == (chunksize is None)", "exactly-one")],
-    loops={0: dict(invariant=INV)},
+    loops={0: dict(invariant=INV, decreases=("len(seq) - locations[len(locations) - 1]", "len(seq) - i"))},
     ghost=[
         ("after", "seq_unique = sorted(set(seq))", 'NU = len(seq_unique)\nLASTU = 0\nassert_(NU == len(set(seq)), "NU-is-the-number-of-distinct-values")\nassert_(seq_unique[0] == seq[0], "smallest-value-first")'),
         ("after", "locations.append(pos)", "if duplicates:\n    LASTU = ind\nif npartitions is not None and NU >= npartitions and len(divisions) <= npartitions - 1:\n    lemma_ideal_mono(len(divisions), npartitions - 1, chunksize, residual)\nif npartitions is not None and NU >= npartitions and len(divisions) == npartitions:\n    assert_((npartitions - 1) * chunksize + residual + chunksize == len(seq), \"ideal-end\")\n    assert_(i >= len(seq), \"the-step-after-the-last-division-reaches-the-end\")"),
@@ -88,7 +88,7 @@ sdl = Contract(
         ("before", "if div <= divisions[-1]:", 'assert_(0 <= pos and pos < len(seq) and seq[pos] == div and (pos == 0 or seq[pos - 1] < seq[pos]), "pos-is-first-occurrence-of-div")'),
         ("before", "divisions.append(div)", 'assert_(pos > locations[len(locations) - 1], "new-location-is-beyond-the-last")'),
     ],
-    note="`axioms`: transitive form of the sortedness precondition (a lemma proved as lemma_sorted_trans); termination of the while loop is NOT proved (bounded natively)",
+    note="`axioms`: transitive form of the sortedness precondition (a lemma proved as lemma_sorted_trans); the while loop terminates (lexicographic `decreases`)",
 )
 
 CONTRACTS = [chunksizes, sdl]
